@@ -101,6 +101,9 @@ def run_property(P, tier, seed, replay=None):
         transitions += jr["generated"]
         # (6) confirm every reject on the real code, alone
         confirmed = []
+        for cid, i, reason in rejects:
+            if reason.startswith("harness_") or reason.startswith("oracle_") or reason == "unknown_event":
+                raise Infra("case %d event %d: %s (harness/oracle drift, not a verdict)" % (cid, i, reason))
         if rejects:
             rej_cases = []
             seen = set()
@@ -181,7 +184,7 @@ def run_property(P, tier, seed, replay=None):
                    checker_cmd="tlc (tla2tools 1.8.0) " + "; ".join(r["cmd"] for r in ctx["tlc_runs"][:3]))
         cov.update(extra_cov)
         wall = time.time() - t0
-        if not replay:
+        if not replay and not os.environ.get("VERIF_NOEVIDENCE"):
             core.write_evidence(prop, tier, seed, cov, wall, nviol, P.get("assumptions", []))
         log("SUMMARY property=%s tier=%s seed=%d cases=%d events=%d states=%d rejected=%d known=%d violations=%d wall=%.1fs" % (
             prop, tier, seed, len(cases), jr.get("events", 0), states, cov["rejected_cases"], len(findings), nviol, wall))
